@@ -7,6 +7,7 @@ import LW.Proofs.Band
 import LW.Proofs.FrameRT
 import LW.Generated.BandData
 import LW.Proofs.BandMasks
+import LW.Proofs.MacRT
 namespace LW.C15
 open LW Outcome BandProofs
 
@@ -57,6 +58,32 @@ theorem C15_cflist_encodable_partial (fs : List (BitVec 32)) (h : fs.all (fun f 
     ∃ bs, ({ payload := .channels fs, typ := 0 } : CFList).enc = ok bs := by
   obtain ⟨b, hb⟩ := FrameRT.cfChannelsEnc_ok fs h
   exact ⟨_, by simp only [CFList.enc, CFListP.enc, hb, Outcome.ok_bind]; rfl⟩
+
+/-- MAC-layer encodability of reported channels: every channel whose frequency lies on the grid the specification gives
+NewChannelReq (multiples of 100 Hz below 2.4 GHz with code < 12 000 000, multiples of 200 Hz from 2.4 GHz upwards — the ISM2400
+channels included) and whose data-rates fit their 4-bit fields is encoded by NewChannelReq, in exactly five bytes, and decodes back
+to the same index, frequency and data-rate range. (Run-time counterpart: the `chanmac` op on every channel a band reports.) -/
+theorem C15_newchannelreq_carries (ch : Byte) (f : BitVec 32) (mx mn : Byte)
+    (hf : (Spec.freqCodeNC f).isSome = true) (hmx : mx.toNat < 16) (hmn : mn.toNat < 16) :
+    ∃ bs, (MacP.newChannelReq ch f mx mn).enc = ok bs ∧ bs.length = 5 ∧
+      Kind.dec0 .newChannelReq bs = ok (.newChannelReq ch f mx mn) := by
+  have hacc : (MacP.newChannelReq ch f mx mn).enc.isOk = true := by
+    apply MacRT.accepts
+    cases hc : Spec.freqCodeNC f with
+    | none => rw [hc] at hf; cases hf
+    | some c => simp [Spec.toFields, hc, Spec.lt, hmx, hmn]
+  cases he : (MacP.newChannelReq ch f mx mn).enc with
+  | ok bs =>
+    have hd := MacRT.lossless _ bs he
+    refine ⟨bs, rfl, ?_, hd⟩
+    simp only [MacP.kind, Kind.dec0, Kind.dec] at hd
+    split at hd <;> simp_all
+  | err => rw [he] at hacc; cases hacc
+  | panic => rw [he] at hacc; cases hacc
+
+/-- non-vacuity: an ISM2400 frequency that is an odd multiple of 200 Hz, and a sub-GHz one -/
+example : (Spec.freqCodeNC 2403000200#32).isSome = true ∧ (Spec.freqCodeNC 868100000#32).isSome = true := by decide
+example : (MacP.newChannelReq 3 2403000200#32 7 0).enc = ok [3, 0x99, 0x55, 0xb7, 0x70] := by decide
 
 /-- witness of the known finding: a 2.4 GHz frequency is refused by the CFList encoder -/
 theorem C15_ism2400_witness : ({ payload := .channels [2403200000#32, 0, 0, 0, 0], typ := 0 } : CFList).enc = err := by decide
